@@ -1,0 +1,12 @@
+//go:build verif
+
+// Contracts for the govc verifier (/verif). Comment-only; compiled only with -tags verif.
+
+package distiller
+
+//@ func Apply(doc, opts)
+//@   requires doc != nil
+//@   ensures [C13] #url-is-supplied-url implies(result1 == nil && opts != nil && opts.OriginalURL != nil, result0 != nil && result0.URL == old(opts.OriginalURL.String()))
+//@   ensures [C13] #no-url-no-result-url implies(result1 == nil && (opts == nil || old(opts.OriginalURL) == nil), result0 != nil && result0.URL == "")
+//@   ensures [C13] #pagination-empty-when-skipped implies(result1 == nil && (opts == nil || old(opts.SkipPagination) || old(opts.OriginalURL) == nil), result0.PaginationInfo.NextPage == "" && result0.PaginationInfo.PrevPage == "")
+//@   ensures [C01] #well-formed-result implies(result1 == nil, result0 != nil && result0.Node != nil && result0.Node.Data == "div") && implies(result1 != nil, result0 == nil)
